@@ -234,6 +234,16 @@ pub fn run(a: &Args) -> i32 {
             let mut b = build_board(p);
             let turn = color_of(p.stm);
             let mut prev: Option<i16> = None;
+            // the same generator is first asked about this very position with 100 plies on the
+            // half-move clock (a drawn game; that score is not judged): scores with a fresh clock
+            // must not be coloured by it
+            {
+                let mut pc = p.clone();
+                pc.halfmove = 100;
+                pc.ply = if pc.stm == Side::White { 200 } else { 201 };
+                let mut bc = build_board(&pc);
+                let _ = guarded(|| evaluate::score(&mut bc, &mut g, turn, 3));
+            }
             for d in 0..=255u8 {
                 mate_evals += 1;
                 match guarded(|| evaluate::score(&mut b, &mut g, turn, d)) {
